@@ -310,6 +310,9 @@ func runHarness(c *core.Ctx, scnAny any) {
 				}
 			case "trunc":
 				nb = nb[:pos(len(nb))]
+				if o.Val%4 == 0 {
+					nb = nb[:len(nb)%4] // almost nothing left: 0..3 bytes
+				}
 				corrupt = true
 				rt.Fault("disk-truncated")
 			case "extend":
@@ -342,7 +345,17 @@ func runHarness(c *core.Ctx, scnAny any) {
 			ctx := func() string {
 				return fmt.Sprintf("kind %s, checkpoint at offset %d, stored state %x", s.Kind, dk.offset, dk.state)
 			}
-			if !guard(c, "UnmarshalBinary", ctx, func() { uerr = h.(encoding.BinaryUnmarshaler).UnmarshalBinary(dk.state) }) {
+			// what a restart reads from the file: a buffer of exactly the
+			// file's size (capacity included), nil for an empty file at times
+			in := dk.state
+			if !s.KeepRef {
+				in = make([]byte, len(dk.state))
+				copy(in, dk.state)
+				if len(in) == 0 && crashes%2 == 0 {
+					in = nil
+				}
+			}
+			if !guard(c, "UnmarshalBinary", ctx, func() { uerr = h.(encoding.BinaryUnmarshaler).UnmarshalBinary(in) }) {
 				return
 			}
 			if uerr != nil {
